@@ -135,9 +135,7 @@ def _create_path(it, self, path):
     lib = it.lib
     did = lib.path_dir(it, path)
     st = it.ctx.st
-    if it.ctx.branch(z3.Select(st.dirs, did)):
-        return NONE
-    st.dirs = z3.Store(st.dirs, did, TRUE)
+    st.dirs = z3.Store(st.dirs, did, TRUE)      # idempotent: no case split on prior existence
     a = path.anchor
     from vc.lib import ANCHOR_DIR
     while True:
